@@ -16,8 +16,18 @@ GENERIC_ASSUMPTIONS = [
 
 def build(prop, tier, seed, pmod, ded, nat, extra, reg, n_obl, n_dis, vc_time, backends, samples,
           undecided, n_viol, wall, ext, mine, known_hits):
-  meta = getattr(pmod, 'META', {}) if pmod else {}
-  level = meta.get('level', 'proof')
+  meta = dict(getattr(pmod, 'META', {}) if pmod else {})
+  # the level is the one claimed in MANIFEST.json (single source of truth)
+  try:
+    man = json.load(open(os.path.join(HERE, 'MANIFEST.json')))
+    for c in man['checks']:
+      if c['property_id'] == prop:
+        meta['level'] = c['level_claimed']['category']
+        meta.setdefault('explanation', c['level_claimed']['text'])
+        meta.setdefault('assumptions', [c['level_note']])
+  except (OSError, KeyError, ValueError):
+    pass
+  level = meta.get('level', 'other')
   nat_evals = sum(n['evaluations'] for n in nat.values())
   nat_samples = []
   for n in nat.values():
@@ -77,7 +87,7 @@ def build(prop, tier, seed, pmod, ded, nat, extra, reg, n_obl, n_dis, vc_time, b
               '; '.join('%s: %s' % (e['name'], e.get('rule', '')) for e in extra),
       'samples': samples + nat_samples + [s for e in extra for s in e.get('samples', [])[:2]],
       'bounded_checks': [{k: v for k, v in e.items() if k not in ('violations', 'samples')} for e in extra],
-      'explanation': meta.get('explanation', ''),
+      'explanation': meta.get('explanation') or 'property not yet claimed in MANIFEST.json; see DESIGN.md',
       'exhaustive': False,
       'known_findings_reported': known_hits,
   }
